@@ -37,12 +37,18 @@ impl LuaOperatorIndex {
         let owner = operator.get_owner().clone();
         let op = operator.get_op();
         self.operators.insert(id, operator);
-        self.type_operators_map
+        // operators of one owner and meta method stay ordered by file and position, so that the one an
+        // expression picks first does not depend on the order in which the files were (re-)analysed
+        let ids = self
+            .type_operators_map
             .entry(owner)
             .or_default()
             .entry(op)
-            .or_default()
-            .push(id);
+            .or_default();
+        if !ids.contains(&id) {
+            let at = ids.partition_point(|it| (it.file_id, it.position) <= (id.file_id, id.position));
+            ids.insert(at, id);
+        }
         self.in_filed_operator_map
             .entry(id.file_id)
             .or_default()
